@@ -130,11 +130,13 @@ func (c *Ctx) tunePoolNotifies(rule string, tp *Func) {
 	ast.Inspect(tp.Body, func(n ast.Node) bool {
 		switch x := n.(type) {
 		case *ast.AssignStmt:
-			if len(x.Rhs) == 1 && len(x.Lhs) == 1 {
-				if call, ok := ast.Unparen(x.Rhs[0]).(*ast.CallExpr); ok {
-					if fk, m := atomicOp(info, call); fk == R.FLimit && m == "Load" {
-						if id, ok := x.Lhs[0].(*ast.Ident); ok {
-							oldVar = info.ObjectOf(id)
+			if len(x.Rhs) == len(x.Lhs) {
+				for i := range x.Rhs {
+					if call, ok := ast.Unparen(x.Rhs[i]).(*ast.CallExpr); ok {
+						if fk, m := atomicOp(info, call); fk == R.FLimit && m == "Load" {
+							if id, ok := x.Lhs[i].(*ast.Ident); ok {
+								oldVar = info.ObjectOf(id)
+							}
 						}
 					}
 				}
